@@ -223,7 +223,7 @@ def gen_systematic():
 
 
 def generate(rng, tier):
-    n = 110 if tier == "quick" else 800
+    n = 110 if tier == "quick" else 600
     out = []
     for _ in range(n):
         lines = gen_lines(rng, tier)
